@@ -51,7 +51,10 @@ func c19Gen(seed int64, idx int) c19Spec {
 }
 
 func relaxedByMysync(x, ms *world.Server) bool {
-	return strings.HasPrefix(x.SettingsWriter, "mysync_") && (x.SyncBinlog != ms.SyncBinlog || x.FlushLog != ms.FlushLog) && (x.SyncBinlog > ms.SyncBinlog || x.FlushLog != 1)
+	// a variable counts only if its current, looser-than-the-master value was written by a mysync instance
+	sb := x.SyncBinlog > ms.SyncBinlog && strings.HasPrefix(x.SyncBinlogWriter, "mysync_")
+	fl := x.FlushLog != ms.FlushLog && x.FlushLog != 1 && strings.HasPrefix(x.FlushLogWriter, "mysync_")
+	return sb || fl
 }
 
 func c19Run(u *Unit) {
@@ -217,7 +220,7 @@ func c19Run(u *Unit) {
 				sc.Cover("promotion")
 				safe := x.SyncBinlog == 1 && x.FlushLog == 1
 				same := x.SyncBinlog == ms.SyncBinlog && x.FlushLog == ms.FlushLog
-				if !safe && !same && strings.HasPrefix(x.SettingsWriter, "mysync_") {
+				if !safe && !same && relaxedByMysync(x, ms) {
 					sc.Violate("C19", "promoted-with-relaxed-settings", fmt.Sprintf("%s promotes %s which runs with sync_binlog=%d innodb_flush_log_at_trx_commit=%d written by %s (old master %d/%d)", inst, c.Host, x.SyncBinlog, x.FlushLog, x.SettingsWriter, ms.SyncBinlog, ms.FlushLog))
 				}
 				if _, tr := s.Cached("optimization_nodes/" + c.Host); tr {
@@ -245,7 +248,12 @@ func c19Run(u *Unit) {
 				s.ZK.Put("operator", NS+"/optimization_nodes/"+h, `{"status":"enabled"}`)
 			}
 		case "operator_disable":
+			// what `mysync optimize --disable-all` does: restore the master's settings, then deregister
 			for _, h := range hosts[1:] {
+				w.Manual(h, "operator restores durability settings", func(x *world.Server) {
+					ms := w.Servers[master]
+					x.SyncBinlog, x.FlushLog, x.SettingsWriter, x.SyncBinlogWriter, x.FlushLogWriter = ms.SyncBinlog, ms.FlushLog, "operator", "operator", "operator"
+				})
 				s.ZK.Remove("operator", NS+"/optimization_nodes/"+h)
 			}
 		case "switch_to_lagging":
